@@ -13,6 +13,7 @@ import (
 	hs "github.com/polynetwork/poly/native/service/header_sync"
 	hscom "github.com/polynetwork/poly/native/service/header_sync/common"
 	hcos "github.com/polynetwork/poly/native/service/header_sync/cosmos"
+	"github.com/polynetwork/poly/native/service/header_sync/okex"
 	"github.com/polynetwork/poly/native/service/utils"
 	"github.com/tendermint/tendermint/crypto"
 	"github.com/tendermint/tendermint/crypto/ed25519"
@@ -60,12 +61,14 @@ type tmVal struct {
 // the spec's Powers[id]) and a block version (10: amino hashes, 11: protobuf hashes).
 type tmWorld struct {
 	u       *universe
+	flav    string // cosmos | okex | heimdall
 	chain   uint64
 	chainID string
 	version uint64
 	sets    map[int][]*tmVal
 	hashes  map[int][]byte
 	rng     *vio.RNG
+	hm      *heimdall
 }
 
 func heightOf(h int) int64 { return 1000 + 10*int64(h) }
@@ -76,10 +79,20 @@ func absHeight(H int64) int {
 	return int((H - 1000) / 10)
 }
 
-func newTmWorld(u *universe, r *vio.RNG, powers [][]int64) *tmWorld {
-	w := &tmWorld{u: u, chain: u.registerChain(utils.COSMOS_ROUTER, nil), rng: r, sets: map[int][]*tmVal{}, hashes: map[int][]byte{}}
+func newTmWorld(u *universe, flav string, r *vio.RNG, powers [][]int64) *tmWorld {
+	if flav == "" {
+		flav = "cosmos"
+	}
+	if flav == "heimdall" {
+		return newHeimdallWorld(u, r, powers)
+	}
+	router := map[string]uint64{"cosmos": utils.COSMOS_ROUTER, "okex": utils.OKEX_ROUTER}[flav]
+	w := &tmWorld{u: u, flav: flav, chain: u.registerChain(router, nil), rng: r, sets: map[int][]*tmVal{}, hashes: map[int][]byte{}}
 	w.chainID = fmt.Sprintf("c30-%d", r.Intn(1000))
 	w.version = uint64(10 + r.Intn(2))
+	if flav == "okex" {
+		w.version = 10 // okex hashes the legacy (amino) way only
+	}
 	for id, ps := range powers {
 		var vs []*tmVal
 		for _, p := range ps {
@@ -200,6 +213,8 @@ func (w *tmWorld) build(a *absHdr, appHash []byte) *hcos.CosmosHeader {
 			cs.BlockIDFlag = tmtypes.BlockIDFlagNil
 		case "a":
 			cs = tmtypes.NewCommitSigAbsent()
+		case "r":
+			cs.BlockIDFlag = tmtypes.BlockIDFlagCommit
 		case "f":
 			fkind[pos] = r.Intn(5)
 			cs.BlockIDFlag = tmtypes.BlockIDFlagCommit
@@ -244,10 +259,36 @@ func (w *tmWorld) build(a *absHdr, appHash []byte) *hcos.CosmosHeader {
 			}
 		}
 	}
+	// "r": the slot repeats the first committing validator's vote (address, timestamp, signature)
+	first := -1
+	for ai, v := range a.Votes {
+		if v == "c" {
+			for pos := 0; pos < n && pos < len(order); pos++ {
+				if abstractIndex(order[pos]) == ai {
+					first = pos
+				}
+			}
+			break
+		}
+	}
+	for pos := 0; pos < n; pos++ {
+		if votes[pos] == "r" {
+			if first < 0 {
+				commit.Signatures[pos].Signature = r.Bytes(64)
+				continue
+			}
+			commit.Signatures[pos] = commit.Signatures[first]
+		}
+	}
 	return ch
 }
 
-func encHeader(ch *hcos.CosmosHeader) []byte {
+func (w *tmWorld) enc(ch *hcos.CosmosHeader) []byte {
+	if w.flav == "okex" {
+		b, err := okex.NewCDC().MarshalBinaryBare(okex.CosmosHeader{Header: ch.Header, Commit: ch.Commit, Valsets: ch.Valsets})
+		vio.Must(err)
+		return b
+	}
 	b, err := hcos.Cdc.MarshalBinaryBare(*ch)
 	vio.Must(err)
 	return b
@@ -257,7 +298,10 @@ func (w *tmWorld) genesis(h, nv int) error {
 	g := hcos.CosmosHeader{Header: tmtypes.Header{ChainID: w.chainID, Height: heightOf(h), ValidatorsHash: w.hashes[nv],
 		NextValidatorsHash: w.hashes[nv], Time: time.Unix(1500000000, 0).UTC()}, Commit: &tmtypes.Commit{}, Valsets: w.plain(nv)}
 	g.Header.Version.Block = tmVersion(w.version)
-	p := &hscom.SyncGenesisHeaderParam{ChainID: w.chain, GenesisHeader: encHeader(&g)}
+	if w.flav == "heimdall" {
+		return w.hm.genesis(w, h, nv)
+	}
+	p := &hscom.SyncGenesisHeaderParam{ChainID: w.chain, GenesisHeader: w.enc(&g)}
 	sink := common.NewZeroCopySink(nil)
 	p.Serialization(sink)
 	_, _, err := w.u.sb.Call(hs.SyncGenesisHeader, nativekit.Tx(w.u.op.Address), sink.Bytes())
@@ -280,7 +324,11 @@ func (w *tmWorld) tracked() tracked {
 func (w *tmWorld) sync(hdrs []*absHdr) (ok bool, panicked string) {
 	p := &hscom.SyncBlockHeaderParam{ChainID: w.chain, Address: w.u.op.Address}
 	for _, a := range hdrs {
-		p.Headers = append(p.Headers, encHeader(w.build(a, w.rng.Bytes(32))))
+		if w.flav == "heimdall" {
+			p.Headers = append(p.Headers, w.hm.header(w, a))
+		} else {
+			p.Headers = append(p.Headers, w.enc(w.build(a, w.rng.Bytes(32))))
+		}
 	}
 	sink := common.NewZeroCopySink(nil)
 	p.Serialization(sink)
@@ -298,7 +346,7 @@ func (w *tmWorld) deposit(a *absHdr, kind string) (ok bool, panicked string, det
 	d := w.makeDeposit(kind)
 	ch := w.build(a, d.appHash)
 	imp := &scom.EntranceParam{SourceChainID: w.chain, Height: uint32(heightOf(a.H)), Proof: d.proof, RelayerAddress: w.u.op.Address[:],
-		Extra: d.extra, HeaderOrCrossChainMsg: encHeader(ch)}
+		Extra: d.extra, HeaderOrCrossChainMsg: w.enc(ch)}
 	sink := common.NewZeroCopySink(nil)
 	imp.Serialization(sink)
 	var hashes int
